@@ -151,10 +151,11 @@ Inductive action :=
 | CrashRestart (k : nat)
 | BecomeLeaderReq (t : Z)
 | ClientWrite (p : Z)
-| LeaderSyncDone.
+| LeaderSyncDone
+| DeleteShardReq (t : Z).
 
 Inductive err := EInvalidTerm | EInvalidStatus | EAlreadyConnected | EInvalidNextOffset
-               | EOutOfBounds | ENotLeader | ENotFound | EWalRead | EClosed | ENoSuchStream | EStream.
+               | EOutOfBounds | ENotLeader | ENotFound | EWalRead | EClosed | ENoSuchStream | EStream | EPanic.
 
 Inductive result :=
 | ROk                               (* no payload *)
@@ -497,6 +498,24 @@ Definition step (c : cfg) (n : node) (a : action) : node * output :=
     match n.(n_role) with RLeader => leader_write n p | _ => (n, out (RErr ENotLeader)) end
   | LeaderSyncDone =>
     match n.(n_role) with RLeader => leader_sync_done n | _ => (n, out RImpossible) end
+  | DeleteShardReq t =>
+    (* shards_director.go DeleteShard: the loaded controller, or a follower controller opened for the occasion, compares the
+       term of the request with its own (the stored one when nothing is loaded).
+       Refused: the controller that handled it is closed (and, if it was the loaded one, stays in the director, unusable:
+       the node is then restarted - the harness does it - and the shard is not loaded any more).
+       Accepted: WAL and DB are deleted. *)
+    let tcur := match n.(n_role) with RNone => dterm n | _ => n.(n_term) end in
+    if t <? tcur then
+      match n.(n_role) with
+      | RNone => (n, out (RErr EInvalidTerm))
+      | _ => (mkN (dterm n) n.(n_wal) (length n.(n_wal)) n.(n_commit) RNone (status_of_term (dterm n))
+                  (-1) 0 None [] false None n.(n_gen) [] false n.(n_commit), out (RErr EInvalidTerm))
+      end
+    else
+      (* followerController.DeleteShard dereferences fc.db, which is nil after a snapshot install that failed half-way: the
+         process dies after the WAL has been deleted (the DB directory is already empty) *)
+      (mkN (-1) [] O (-1) RNone NotMember (-1) 0 None [] false None n.(n_gen) [] false (-1),
+       out (if n.(n_termlost) then RErr EPanic else ROk))
   end.
 
 (* executions: the state after a schedule and the outputs, in order *)
